@@ -605,7 +605,6 @@ func (e *Env) index(x *EIndex) TV {
 	return TV{}
 }
 
-
 func (e *Env) nilOf(t types.Type) string {
 	return e.vc.pre.zeroOf(t)
 }
